@@ -28,7 +28,8 @@ Inductive fsop :=
 | OLstat (p : path) | OStat (p : path) | OReadlink (p : path) | ORead (p : path)
 | OMkdir (p : path) | OMkdirAll (p : path) | ORemove (p : path) | ORemoveAll (p : path)
 | OSymlink (dest : list comp) (p : path) | OWrite (p : path) (rle : list (N * N))
-| ORename (src dst : path) | ORename2 (src dst : path).
+| ORename (src dst : path) | ORename2 (src dst : path)
+| OWriteAt (p : path) (off : N) (rle : list (N * N)) | OTruncate (p : path) (len : N).
 
 Inductive fsres :=
 | RErr (e : errno)
@@ -69,6 +70,14 @@ Definition do_op (t : tree) (o : fsop) : tree * fsres :=
                   end
   | ORename a c => unit_res t (rename t a c)
   | ORename2 a c => unit_res t (rename2 t a c)
+  | OWriteAt p off r => match open_nocreate t p with
+                        | Ok q => (write_at_fd t q (N.to_nat off) (expand r), RUnit)
+                        | Err e => (t, RErr e)
+                        end
+  | OTruncate p len => match open_nocreate t p with
+                       | Ok q => (truncate_fd t q (N.to_nat len), RUnit)
+                       | Err e => (t, RErr e)
+                       end
   end.
 
 Fixpoint do_ops (t : tree) (os : list fsop) : tree * list fsres :=
